@@ -46,3 +46,75 @@ def permutations_same_table(steps, rng, limit=3):
     perms = list(itertools.permutations(deploys))[1:]
     rng.shuffle(perms)
     return [list(p) for p in perms[:limit]]
+
+
+# ---- MC_Ops.tla: all command kinds and injected faults ------------------------------------------------
+OPS_HOSTSETS = [[""], ["a.d"], ["*.d"], ["b.a.d"], ["a.d", "b.a.d"]]
+OPS_PATHSETS = [["/"], ["/api"], ["/", "/api"]]
+OPS_TLSOPTS = [dict(tls=False, redirect=True, acme=False), dict(tls=True, redirect=False, acme=False), dict(tls=True, redirect=True, acme=True)]
+OPS_FAULTS = ["none", "invalid_target", "unhealthy", "cert", "error_pages"]
+OPS_MSGS = ["", "back soon", "closed <b>for</b> maintenance & repairs"]
+OPS_LABEL = re.compile(r"<(Op\w+)(?:\(([^)]*)\))? line")
+
+
+def ops_steps_from_text(txt, rng=None):
+    steps = _ops_steps(txt)
+    if rng is not None:
+        for st in steps:
+            if st["op"] == "deploy":
+                st["topt"] = rng.choice([0, 0, 1, 2])            # target-option variant of this deploy
+                if st.get("fault") == "none" and rng.random() < 0.15:
+                    st["fault"] = "state_unwritable"               # the state file cannot be written: the command still succeeds
+    return steps
+
+
+def _ops_steps(txt):
+    steps = []
+    for m in OPS_LABEL.finditer(txt):
+        name = m.group(1)
+        a = [x.strip().strip('"') for x in m.group(2).split(",")] if m.group(2) else []
+        if name == "OpDeploy":
+            hi, pi, ti, fi = (int(x) for x in a[1:5])
+            hosts = [h for h in OPS_HOSTSETS[hi - 1] if h != ""]
+            steps.append(dict(op="deploy", svc=a[0], hosts=hosts, paths=OPS_PATHSETS[pi - 1], strip=True, fault=OPS_FAULTS[fi - 1], **OPS_TLSOPTS[ti - 1]))
+        elif name == "OpRolloutDeploy":
+            steps.append(dict(op="rollout_deploy", svc=a[0], fault=OPS_FAULTS[int(a[1]) - 1]))
+        elif name == "OpRolloutSet":
+            steps.append(dict(op="rollout_set", svc=a[0], arg=int(a[1])))
+        elif name == "OpStop":
+            steps.append(dict(op="stop", svc=a[0], msg=OPS_MSGS[int(a[1]) - 1]))
+        elif name in ("OpRolloutStop", "OpPause", "OpResume", "OpRemove"):
+            steps.append(dict(op={"OpRolloutStop": "rollout_stop", "OpPause": "pause", "OpResume": "resume", "OpRemove": "remove"}[name], svc=a[0]))
+        elif name == "OpRestart":
+            steps.append(dict(op="restart"))
+    return steps
+
+
+def regression_plans():
+    """Hand-written histories for defects that were repaired: replayed on every run."""
+    dep = lambda s, hosts, paths, **kw: dict(dict(op="deploy", svc=s, hosts=hosts, paths=paths, strip=True, tls=False, redirect=True, acme=False, fault="none"), **kw)
+    return [
+        plan([dep("s1", ["a.d"], ["/"]), dict(op="pause", svc="s1"), dict(op="restart"), dict(op="resume", svc="s1")], note="restored paused service resumes"),
+        plan([dep("s1", ["a.d"], ["/"]), dict(op="pause", svc="s1"), dict(op="restart"), dict(op="stop", svc="s1", msg="back soon"), dict(op="resume", svc="s1")], note="restored paused service stops"),
+        plan([dep("s1", ["a.d"], ["/"]), dict(op="restart"), dict(op="rollout_set", svc="s1", arg=2), dict(op="rollout_deploy", svc="s1"), dict(op="rollout_set", svc="s1", arg=2),
+              dict(op="restart"), dict(op="rollout_stop", svc="s1"), dict(op="restart")], note="split needs targets after a restart; split and stop survive restarts"),
+        plan([dep("s1", ["*.d"], ["/"], tls=True, redirect=False), dep("s2", ["*.d"], ["/api"]), dict(op="restart"), dep("s3", ["a.d"], ["/"])], note="wildcard root with static certificate + sub-path service restores"),
+        plan([dep("s1", ["a.d"], ["/"]), dict(op="stop", svc="s1", msg="closed <b>for</b> maintenance & repairs"), dict(op="restart"), dep("s1", ["a.d"], ["/"]), dict(op="resume", svc="s1")], note="stopped state and message survive restart and redeploy"),
+    ]
+
+
+def pairwise_restart_plans():
+    """Every ordered pair of commands on a deployed service (with and without rollout targets), followed by a restart
+    and a last command: the systematic small histories of C11 / C10 / C06."""
+    dep = lambda s, hosts, paths, **kw: dict(dict(op="deploy", svc=s, hosts=hosts, paths=paths, strip=True, tls=False, redirect=True, acme=False, fault="none"), **kw)
+    cmds = [dict(op="pause", svc="s1"), dict(op="stop", svc="s1", msg="back soon"), dict(op="stop", svc="s1", msg="closed <b>for</b> maintenance & repairs"),
+            dict(op="resume", svc="s1"), dict(op="rollout_deploy", svc="s1"), dict(op="rollout_set", svc="s1", arg=1), dict(op="rollout_set", svc="s1", arg=2),
+            dict(op="rollout_stop", svc="s1"), dep("s1", ["a.d", "b.a.d"], ["/", "/api"], topt=1), dep("s1", ["a.d"], ["/"], fault="unhealthy", topt=2),
+            dict(op="remove", svc="s1")]
+    out = []
+    for pre in ([], [dict(op="rollout_deploy", svc="s1"), dict(op="rollout_set", svc="s1", arg=2)]):
+        for x in cmds:
+            for y in cmds:
+                steps = [dep("s1", ["a.d"], ["/"])] + [dict(p) for p in pre] + [dict(x), dict(y), dict(op="restart"), dict(op="resume", svc="s1")]
+                out.append(plan(steps, note="pair %s,%s + restart" % (x["op"], y["op"])))
+    return out
